@@ -913,9 +913,9 @@ def _exemplars_info(info, tname=None):
             bad.append(float(good[0] if good else 1))       # 4.0 is not in the lexical space of an integer type
         return good, bad
     if k == 'string':
-        return ['a', 'hello world', 'Text-1'], []
+        return ['a', 'hello world', 'Text-1'] + ([] if info.get('minLength') else ['']), []
     if k == 'token':
-        return ['a', 'hello world', 'tok-1'], []
+        return ['a', 'hello world', 'tok-1'] + ([] if info.get('minLength') else ['']), []
     if k == 'nmtoken':
         return ['a1', 'tok-1', 'P1'], ['a b']
     if k == 'ncname':
